@@ -48,11 +48,11 @@ CacheConsistent == \A s \in SPNs : cache[s].id # 0 => IssuedFor(cache[s], s, iss
 Bound == Len(issued) <= 5
 
 \* ---- request well-formedness (RFC 4120 3.1.1 / 3.3.1 and the krb5.conf settings), used on recorded KDC-side request events --------
-\* cfg: [etypes, forwardable, proxiable, canonicalize, renewable (renew_lifetime # 0), ticketLife, renewLife (seconds), noaddresses]
+\* cfg: [etypes, tgsEtypes, forwardable, proxiable, canonicalize, renewable (renew_lifetime # 0), ticketLife, renewLife (seconds), noaddresses]
 \* r: a decoded request [kind, etypes, fwd, prx, canon, renewableOpt, renewableOK, till, rtime, hasRtime, naddrs, at (seconds), renew]
 Near(a, b) == a - b <= 3 /\ b - a <= 3          \* request times are stamped by the client a moment before the KDC sees them
 WellFormedReq(cfg, r) ==
-  /\ r.etypes = cfg.etypes
+  /\ r.etypes = (IF r.kind = "AS" THEN cfg.etypes ELSE cfg.tgsEtypes)       \* default_tkt_enctypes / default_tgs_enctypes
   /\ r.fwd = cfg.forwardable /\ r.prx = cfg.proxiable /\ r.canon = cfg.canonicalize
   /\ (r.kind = "AS" => r.renewableOK)                                         \* kdc_default_options (renewable-ok) is carried
   /\ Near(r.till, r.at + cfg.ticketLife)
